@@ -5,7 +5,10 @@ import (
 	"bytes"
 	"context"
 	"fmt"
+	"io"
+	"os"
 	"strings"
+	"syscall"
 	"testing"
 
 	"github.com/hedzr/logg/slog"
@@ -30,6 +33,31 @@ type scenario struct {
 	Part   []bool       // Part[j]: a failing attempt reports a partial count instead of 0
 	Perm   map[int]bool // writers failing on every attempt during the faulty phase
 	Suffix []slog.Level // calls issued after all faults are switched off
+	// ErrKind: what a failing Write returns: 0 a plain injected error, 1 an error wrapping os.ErrClosed, 2 io.ErrClosedPipe,
+	// 3 io.ErrShortWrite, 4 syscall.EPIPE, 5 io.EOF, 6 context.DeadlineExceeded (a destination that is down reports
+	// whatever its transport reports; none of them may make the failure permanent)
+	ErrKind int
+	// Depth: 0 the logger is a root; 1 / 2: it is a child / grandchild of a root that has recording writers of its own
+	// (and is at level Always): nothing may ever arrive there
+	Depth int
+}
+
+func failure(kind int) error {
+	switch kind % 7 {
+	case 1:
+		return fmt.Errorf("write /var/log/app.log: %w", os.ErrClosed)
+	case 2:
+		return io.ErrClosedPipe
+	case 3:
+		return io.ErrShortWrite
+	case 4:
+		return syscall.EPIPE
+	case 5:
+		return io.EOF
+	case 6:
+		return context.DeadlineExceeded
+	}
+	return vlib.ErrInjected
 }
 
 const cascadeLimit = 200 // Write attempts within ONE call before the guard trips
@@ -76,11 +104,22 @@ func run(t vlib.TB, test string, sc scenario) {
 			}
 		}
 	}
-	pool := make([]vlib.Writer, nw)
+	nwAll := nw
+	if sc.Depth > 0 {
+		nwAll = nw + 2 // the ancestors' own writers
+	}
+	pool := make([]vlib.Writer, nwAll)
 	for i := range pool {
 		pool[i] = vlib.NewRec(log, i, i)
 	}
 	lg := slog.New("c13")
+	if sc.Depth > 0 {
+		root := slog.New("c13root").SetWriter(pool[nw]).SetErrorWriter(pool[nw+1]).SetLevel(slog.AlwaysLevel)
+		lg = root.New("c13")
+		if sc.Depth > 1 {
+			lg = root.New("c13mid").New("c13")
+		}
+	}
 	switch sc.Cfg.Format {
 	case "json":
 		lg.SetJSONMode(true)
@@ -126,14 +165,14 @@ func run(t vlib.TB, test string, sc scenario) {
 			return len(p), nil
 		}
 		if j < len(sc.Part) && sc.Part[j] {
-			return len(p) / 2, vlib.ErrInjected
+			return len(p) / 2, failure(sc.ErrKind)
 		}
-		return 0, vlib.ErrInjected
+		return 0, failure(sc.ErrKind)
 	}
 
 	desc := func() string {
-		return fmt.Sprintf("config{normal=%v error=%v leveled=%v level=%v format=%s} calls=%v bits=%v perm=%v suffix=%v",
-			sc.Cfg.Normal, sc.Cfg.Error, sc.Cfg.Leveled, sc.Cfg.L, sc.Cfg.Format, sc.Calls, sc.Bits, sc.Perm, sc.Suffix)
+		return fmt.Sprintf("config{normal=%v error=%v leveled=%v level=%v format=%s depth-below-a-root-with-own-writers=%d} calls=%v bits=%v perm=%v failing-writes-return=%q suffix=%v",
+			sc.Cfg.Normal, sc.Cfg.Error, sc.Cfg.Leveled, sc.Cfg.L, sc.Cfg.Format, sc.Depth, sc.Calls, sc.Bits, sc.Perm, failure(sc.ErrKind), sc.Suffix)
 	}
 
 	labels := map[string]bool{}
@@ -186,7 +225,7 @@ func run(t vlib.TB, test string, sc scenario) {
 				}
 			}
 		}
-		for w := 0; w < nw; w++ {
+		for w := 0; w < nwAll; w++ {
 			if recGot[w] != count(want, w) {
 				t.Fatalf("C13 %s: call #%d (%s, severity %v, admitted=%v): writer w%d got the record %d times, want %d (selected %v) although other destinations failed=%v; events: %v",
 					desc(), n, phase, r, admit, w, recGot[w], count(want, w), want, anyFail, evs)
@@ -197,7 +236,7 @@ func run(t vlib.TB, test string, sc scenario) {
 		if wantDiag {
 			wd = dest(sc.Cfg, slog.WarnLevel)
 		}
-		for w := 0; w < nw; w++ {
+		for w := 0; w < nwAll; w++ {
 			if diagGot[w] != count(wd, w) {
 				t.Fatalf("C13 %s: call #%d (%s, severity %v): writer w%d got %d diagnostic records, want %d (a failure happened=%v, warning admitted=%v, warning destinations=%v); events: %v",
 					desc(), n, phase, r, w, diagGot[w], count(wd, w), anyFail, model.Admit(sc.Cfg.L, slog.WarnLevel, debug), dest(sc.Cfg, slog.WarnLevel), evs)
@@ -292,7 +331,7 @@ func TestExhaustiveSchedules(t *testing.T) {
 						part[j] = j%2 == 1
 					}
 					run(t, "TestExhaustiveSchedules", scenario{Cfg: cfg, Calls: c.calls, Bits: bits, Part: part,
-						Suffix: []slog.Level{slog.InfoLevel, slog.ErrorLevel, slog.WarnLevel}})
+						Suffix: []slog.Level{slog.InfoLevel, slog.ErrorLevel, slog.WarnLevel}, ErrKind: mask % 7, Depth: (mask / 7) % 3})
 					total++
 				}
 			}
@@ -335,6 +374,8 @@ func genScenario(t *rapid.T) scenario {
 		}
 	}
 	sc.Suffix = rapid.SliceOfN(rapid.SampledFrom(vlib.Builtins), 1, 6).Draw(t, "suffix")
+	sc.ErrKind = rapid.SampledFrom([]int{0, 0, 0, 1, 2, 3, 4, 5, 6}).Draw(t, "errorKind")
+	sc.Depth = rapid.SampledFrom([]int{0, 0, 1, 2}).Draw(t, "depth")
 	return sc
 }
 
